@@ -248,6 +248,7 @@ class DrvPull(Contract):
                                           otherwise the octet), returns 1
        representation invariant (pre and post): idle => state != ESCAPE; busy => data <= next <= tail, escape pending => next < tail."""
     name = "sercomm_drv_pull"
+    roles = {"i": ("ivar", None)}          # the queue index of the dequeue loop, whatever it is called
     externals = EXTERNALS
     external_notes = NOTES
     cases = (("idle",), ("busy",))
